@@ -421,7 +421,9 @@ func init() {
 			if gr.Chance(8) {
 				pf = pick(gr, []string{"a", "d", "d/a", "x", "b/c", "nosuch", "ld/keep", "in"})
 			}
-			opts := VL{vbool(gr.Chance(20)), vbool(gr.Chance(10))}
+			// (a CARv2 on a stdin pipe fails before anything is extracted: C18 looks at that)
+			useStdin := gr.Chance(20)
+			opts := VL{vbool(useStdin), vbool(!useStdin && gr.Chance(12))}
 			c17Emit(c, "random", fs, od, pf, roots, opts, pre)
 		}
 	})
